@@ -277,7 +277,7 @@ def decodes_to(data, plain, fmt="auto"):
         return False
 
 
-def lib_decode(path_bytes, fmt="auto", single=False, ignore_check=False):
+def lib_decode(path_bytes, fmt="auto", single=False, ignore_check=False, chunk=0):
     """Direct library decode with the tree's liblzma (helper binary)."""
     d = tempfile.mkdtemp(prefix="xzl_", dir=SCRATCH_ROOT)
     try:
@@ -285,7 +285,7 @@ def lib_decode(path_bytes, fmt="auto", single=False, ignore_check=False):
         op = os.path.join(d, "out")
         with open(ip, "wb") as f:
             f.write(path_bytes)
-        r = subprocess.run([os.path.join(BIN, "libdecode"), ip, fmt, "1" if single else "0", "1" if ignore_check else "0", op], capture_output=True)
+        r = subprocess.run([os.path.join(BIN, "libdecode"), ip, fmt, "1" if single else "0", "1" if ignore_check else "0", op] + ([str(chunk)] if chunk else []), capture_output=True)
         m = re.match(r"status (\d+) total_in (\d+) total_out (\d+) unsupported_check (\d)", r.stdout.decode())
         if not m:
             raise RuntimeError("libdecode failed: " + r.stderr.decode())
